@@ -123,7 +123,19 @@ type Run struct {
 	Steps    uint64      `json:"steps"`
 }
 
+// A Call is an entry into the module through the Go API after initialisation:
+// starlark.Call(thread, globals[Fn], Args, nil) on an idle thread.
+type CallArg struct {
+	T string `json:"t"` // int | str | bool | none
+	V string `json:"v"`
+}
+type Call struct {
+	Fn   string    `json:"fn"`
+	Args []CallArg `json:"args"`
+}
+
 type Out struct {
+	Calls       []Call   `json:"calls"`
 	ID          int      `json:"id"`
 	Src         string   `json:"src"`
 	Opts        Opts     `json:"opts"`
@@ -356,8 +368,40 @@ func runOne(o *Out) {
 		for _, k := range names {
 			run.Globals = append(run.Globals, [2]string{k, globals[k].String()})
 		}
-	} else {
+		// entries through the Go API: each on an idle thread; the first failure ends the run
+		for _, c := range o.Calls {
+			fn, ok := globals[c.Fn]
+			if !ok {
+				err = fmt.Errorf("no global %s", c.Fn)
+				break
+			}
+			args := make(starlark.Tuple, 0, len(c.Args))
+			for _, a := range c.Args {
+				switch a.T {
+				case "int":
+					n, _ := new(big.Int).SetString(a.V, 10)
+					args = append(args, starlark.MakeBigInt(n))
+				case "str":
+					args = append(args, starlark.String(a.V))
+				case "bool":
+					args = append(args, starlark.Bool(a.V == "true"))
+				default:
+					args = append(args, starlark.None)
+				}
+			}
+			th := &starlark.Thread{Name: "c01-call", Load: loader, Print: func(*starlark.Thread, string) {}}
+			th.SetMaxExecutionSteps(maxSteps)
+			var v starlark.Value
+			v, err = starlark.Call(th, fn, args, nil)
+			if err != nil {
+				break
+			}
+			run.Trace = append(run.Trace, TraceRec{Args: []string{starlark.String("<result>").String(), v.String()}, Kwargs: [][2]string{}})
+		}
+	}
+	if err != nil {
 		run.Outcome = "error"
+		run.Globals = nil
 		run.ErrMsg = err.Error()
 		if strings.Contains(run.ErrMsg, "too many steps") || strings.Contains(run.ErrMsg, "cancelled") {
 			run.Outcome = "timeout"
@@ -422,13 +466,14 @@ func main() {
 				Src      string   `json:"src"`
 				Opts     Opts     `json:"opts"`
 				Features []string `json:"features"`
+				Calls    []Call   `json:"calls"`
 				Fragment bool     `json:"fragment"`
 			}
 			if err := json.Unmarshal([]byte(line), &in); err != nil {
 				fmt.Fprintln(os.Stderr, "c01 run: bad input line:", err)
 				os.Exit(1)
 			}
-			o := &Out{ID: in.ID, Src: in.Src, Opts: in.Opts, Features: in.Features, Fragment: in.Fragment}
+			o := &Out{ID: in.ID, Src: in.Src, Opts: in.Opts, Features: in.Features, Fragment: in.Fragment, Calls: in.Calls}
 			runOne(o)
 			hx.Emit(o)
 		}
